@@ -85,6 +85,44 @@ func TestC13(t *testing.T) {
 			d.QF, in, hist = hx.GenHistory(t, d.QF, in, true)
 			d.Route = append(d.Route, hist.String())
 		}
+		// now and then the frame written is itself the result of reading a CSV text (fields quoted only where needed - often
+		// nowhere), possibly reordered afterwards
+		reread := false
+		if steps > 2 && len(in.Cols) > 0 && rapid.IntRange(0, 4).Draw(t, "rereadfirst") == 0 {
+			if qf2, ok := hx.FromCSV(in, true); ok {
+				d.QF, reread = qf2, true
+				d.Route = append(d.Route, "re-read from a CSV text with minimal quoting")
+				if rapid.Bool().Draw(t, "rereadsort") {
+					d.QF = d.QF.Sort(qframe.Order{Column: in.Cols[0].Name, Reverse: true})
+					d.Route = append(d.Route, "sorted")
+					in = d.Input(t)
+				}
+			}
+		}
+		// now and then a numeric column under a name that needs quoting joins the frame right before it is written (by Copy
+		// or as a constant): what a frame remembers of the text it was read from says nothing about such a column
+		if steps > 2 && len(in.Cols) > 0 && (reread || rapid.IntRange(0, 4).Draw(t, "latecolumn") == 0) {
+			name := rapid.SampledFrom([]string{"x,y", "q\"q", "l\nf", " lead", "late", "a,\"b\"\n"}).Draw(t, "latename")
+			if in.Find(name) < 0 {
+				var nums []string
+				for _, c := range in.Cols {
+					if c.Kind == hx.KInt || c.Kind == hx.KFloat || c.Kind == hx.KBool {
+						nums = append(nums, c.Name)
+					}
+				}
+				var added qframe.QFrame
+				if len(nums) > 0 && rapid.Bool().Draw(t, "latecopy") {
+					added = d.QF.Copy(name, nums[rapid.IntRange(0, len(nums)-1).Draw(t, "latesrc")])
+				} else {
+					added = d.QF.Apply(qframe.Instruction{Fn: 7, DstCol: name})
+				}
+				if added.Err == nil {
+					d.QF = added
+					d.Route = append(d.Route, fmt.Sprintf("numeric column %q added", name))
+					in = d.Input(t)
+				}
+			}
+		}
 		header := rapid.IntRange(0, 3).Draw(t, "header") > 0
 		order := in.Names()
 		explicitOrder := rapid.Bool().Draw(t, "columnsopt")
